@@ -345,7 +345,7 @@ def known_bits(t):
 # ring form.  poly: dict monomial(tuple of atom ids, sorted) -> coeff ; atoms by id
 
 _ATOM = {}
-RING_EXPAND_LIMIT = 6
+RING_EXPAND_LIMIT = 48
 
 
 def _atom_reg(a):
